@@ -84,8 +84,11 @@ pub fn disasm(rng: &mut Rng, count: u64, emit: Emit) {
                 // jXX/call take the immediate from byte 1 on; the others from byte 2 on: fill both views
                 let value = b0 | (b1 << 8) | (imm << 16);
                 let value = value & ((1u128 << 80) - 1);
-                let (n, text) = hclrs::verif_hooks::disassemble_to_string(value);
-                emit(format!("(disasm {})", value), format!("{}|{}", n, text));
+                let res = std::panic::catch_unwind(move || hclrs::verif_hooks::disassemble_to_string(value));
+                match res {
+                    Ok((n, text)) => emit(format!("(disasm {})", value), format!("{}|{}", n, text)),
+                    Err(_) => emit(format!("(disasm {})", value), String::from("PANIC")),
+                }
             }
         }
     }
@@ -105,18 +108,19 @@ pub fn trace(rng: &mut Rng, count: u64, emit: Emit) {
         }
         let text = format!("pc = 0x{:x}; Stat = STAT_HLT;\n", pc);
         let contents = hclrs::FileContents::new_from_data(hclrs::verif_hooks::y86_preamble(), &text, "t.hcl");
-        let line = match hclrs::parse_y86_hcl(&contents) {
+        let mem2 = mem.clone();
+        let line = std::panic::catch_unwind(std::panic::AssertUnwindSafe(|| match hclrs::parse_y86_hcl(&contents) {
             Err(_) => String::from("rejected"),
             Ok(program) => {
                 let mut rp = hclrs::RunningProgram::new_y86(program);
-                rp.verif_set_memory(&mem);
+                rp.verif_set_memory(&mem2);
                 let mut out: Vec<u8> = Vec::new();
                 match rp.step_with_output(&mut out) {
                     Ok(()) => String::from_utf8_lossy(&out).lines().find(|l| l.starts_with("pc = ")).unwrap_or("no-line").to_string(),
                     Err(_) => String::from("step-error"),
                 }
             }
-        };
+        })).unwrap_or(String::from("PANIC"));
         let mut req = format!("(trace {} (mem", pc);
         for (a, b) in &mem { write!(req, " ({} {})", a, b).unwrap(); }
         req.push_str("))");
